@@ -100,7 +100,7 @@ pub fn generate(out: &mut Out, seed: u64, thorough: bool, _outdir: &str) {
                     0 => Custom::Lobes(1.0, 0.1 + 0.3 * rng.f64_unit()),        // inside the head-room
                     1 => Custom::Lobes(1.0, 0.45 + 0.049 * rng.f64_unit()),     // large lobes: normalised weights up to ~500
                     2 => Custom::Lobes(0.0, -1.0),                              // ring kernel: vanishes around 0
-                    3 => Custom::Wide(*rng.pick(&[0.01, 0.3, 2.5, 17.0, 60.0])),
+                    3 => Custom::Wide(*rng.pick(&[0.01, 0.3, 2.5, 17.0, 60.0, 4.0e9, 1.0e19, 1.0e300, f64::MAX])),   // incl. valid but huge supports
                     _ => Custom::Scaled(*rng.pick(&[1.0, 1e-300, 1e300, -1.0, 3.0])),
                 };
                 case.custom = Some(c);
